@@ -1,5 +1,7 @@
 import RichModel.Drv.Proto
 import RichModel.Model.Totality
+import RichModel.Model.TotalityPrint
+import RichModel.Gen.CellWidths
 /-
 Driver handlers for property C14 (the exception layer of the string entry points).
 
@@ -41,7 +43,37 @@ def decNS (s : String) : Option (Theme.NS Style) :=
   else if s == "o" then some (.style Style.null)
   else some (.str (decStr (s.drop 1).toString))
 
+/-- the console of the print correspondence: rich's width table, every code variant repaired -/
+def printCfg (w : Nat) : Layout.Cfg :=
+  { cw := charWidthT Gen.cellWidths, env := { consoleWidth := w },
+    v := { zeroWidthChild := false, ruleRightRepeat := false, rstripCountsChars := false, columnsZeroCount := false },
+    wv := Wrap.WVariant.repaired, fl := Flags.allRepaired }
+
+def decOverflow (s : String) : Option (Option RichModel.Overflow) :=
+  if s == "-" then some none
+  else if s == "fold" then some (some .fold)
+  else if s == "crop" then some (some .crop)
+  else if s == "ellipsis" then some (some .ellipsis)
+  else if s == "ignore" then some (some .ignore)
+  else none
+
+def encPyErr : PyErr → String
+  | .indexError => "IndexError" | .typeError => "TypeError" | .valueError => "ValueError"
+  | .assertionError => "AssertionError" | .zeroDivisionError => "ZeroDivisionError" | .keyError => "KeyError"
+  | .runtimeError => "RuntimeError"
+
 def handlers : List (String × (List String → String)) := [
+  ("c14_print_plain", fun a => match a with
+    | [w, ov, nw, crop, sep, e, s] =>
+      match decOverflow ov with
+      | none => "bad-args"
+      | some ov =>
+        let po : PrintOpts := { overflow := ov, noWrap := if nw == "-" then some false else some (decBool nw),
+                                crop := decBool crop, sep := decStr sep, endStr := decStr e }
+        match printPlainE (printCfg (decNat w)) po (decStr s) (decNat w) with
+        | .ok lines => "ok:" ++ encStr (lines.flatMap (fun l => l.flatMap (fun g => if g.control then [] else g.text)))
+        | .error e => "err:Other:" ++ encPyErr e
+    | _ => "bad-args"),
   ("c14_lower", fun a => match a with
     | [s] => let x := decStr s
       if Py.lowerUnmodelled x then "unmodelled" else encStr (P.lower x)
